@@ -66,7 +66,7 @@ def files(tier, rng):
         except Exception as e:
             log(f"C03: pq.py cannot write {enc}/{codec}: {e}")
     tys = ["i32", "i64", "f32", "f64", "bool", "ba", "fl3", "i32?", "i64?", "f64?", "ba?", "bool?", "fl3?"]
-    for _ in range(40 if thorough else 12):
+    for _ in range(80 if thorough else 30):
         nc = rng.randrange(1, 5)
         out.append(mk(rng.choice(list(rc.CODECS.values())), [rng.choice(tys) for _ in range(nc)],
                       [rng.randrange(1, 8) for _ in range(rng.randrange(1, 4))]))
@@ -86,7 +86,7 @@ def gen_cases(tier, rng, fls):
                 for c in range(nc):
                     n = len(fs.rows(g, c))
                     hs = rc.histories(min(n, 5), min(n, 5) + 1) if n else [()]
-                    picks = [((("r", n + 1),))] + rng.sample(hs, min(len(hs), 40 if thorough else 12))
+                    picks = [((("r", n + 1),))] + rng.sample(hs, min(len(hs), 80 if thorough else 25))
                     for h in picks:
                         if not h:
                             continue
@@ -99,11 +99,27 @@ def gen_cases(tier, rng, fls):
                     projs.append(("i:" + ",".join(map(str, sel)), list(sel)))
             projs += [("n:" + ",".join(fs.cols[i].name for i in sel), list(sel))
                       for sel in itertools.permutations(range(nc), min(nc, 2))]
-            if not thorough and len(projs) > 14:
-                projs = projs[:4] + rng.sample(projs[4:], 10)
+            if not thorough and len(projs) > 24:
+                projs = projs[:4] + rng.sample(projs[4:], 20)
             for bs in range(1, rows_max + 2):
                 for proj, pcols in projs:
                     groups.append([C02.bat_case(fs, m, bs, proj, pcols, "bat", verify=verify) for m in MODES])
+    return groups
+
+
+def corpus_groups():
+    """the witnesses of the findings (corpus/C03/*.json), each request in the three modes"""
+    groups = []
+    for f in sorted((vlib.VERIF / "corpus" / PID).glob("*.json")):
+        for w in json.loads(f.read_text()):
+            fs = C02.spec_from_text(w["spec"])
+            if w.get("impl_hex"):
+                fs._impl = "x:" + w["impl_hex"]
+            for r in w["requests"]:
+                if r[0] == "col":
+                    groups.append([C02.col_case(fs, r[1], r[2], m, r[3], "corpus") for m in MODES])
+                else:
+                    groups.append([C02.bat_case(fs, m, r[1], r[2], C02.proj_cols(fs, r[2]), "corpus") for m in MODES])
     return groups
 
 
@@ -173,7 +189,7 @@ def run(tier):
         rep.tie_broken("harness does not build against the current tree: " + str(e)[:500])
         return rep.finish()
     fls = files(tier, rng)
-    groups = gen_cases(tier, rng, fls)
+    groups = corpus_groups() + gen_cases(tier, rng, fls)
     cases = [c for g in groups for c in g]
     lines = [c.line for c in cases]
     log(f"C03: {len(groups)} requests x 3 modes")
